@@ -20,6 +20,7 @@ chain_future, `>=`-style off-by-one in WaitIterator queueing, removing `if not r
 in with_timeout's timeout callback - each reported as VIOLATION by the S2C replay.
 """
 import random
+import time
 
 from harness import framework, futures_gen
 from harness.framework import canon
